@@ -153,6 +153,9 @@ func Exits(fn *ssa.Function) []Exit {
 		for _, ins := range blk.Instrs {
 			switch x := ins.(type) {
 			case *ssa.Phi:
+				if x.Comment == "&&" || x.Comment == "||" {
+					pure = false // `return a && b` is one exit returning a boolean expression (an and/or term)
+				}
 				for _, r := range e.Results {
 					if r == ssa.Value(x) {
 						hasPhi = true
